@@ -15,6 +15,7 @@ Model: `Okane.Parse` (ledger parser over the winnow combinators of `Okane.Comb`)
   for the directives `include`, `apply tag`, `end apply tag`, top-level comments (`C05_entry_partial`) and for
   tag-word / key-value metadata lines (`C05_metadata_partial`), hence `C05_roundtrip_directives`.
 -/
+set_option linter.unusedSimpArgs false
 namespace Okane.C05
 open Okane Okane.Comb Okane.Parse Okane.Unparse
 
@@ -187,10 +188,13 @@ theorem not_C05_eof_full : ¬ C05_eof_full := by
 /-- the formatted text of a whole transaction is read back by the model (evaluation; the general theorem for
 transactions is `C05_entry_full`, which rests on the correspondence stream) -/
 def exLedger : List Char :=
-  "2024/01/05=2024/01/06 * (c1) Päyee ; k: v\n  ; :t1:t2:\n  Assets:現金 A  -1,234.50 JPY {2 USD} [2024/01/01] (n) @@ (3 EUR * -2) = 0\n  Expenses:食費\n".toList
+  "2024/01/05=2024/01/06 * (c1) Payee ; k: v\n  ; :t1:t2:\n  Assets:Cash A  -1,234.50 JPY {2 USD} [2024/01/01] (n) @@ (3 EUR * -2) = 0\n  Expenses:Food\n".toList
 
 example : (match parseEntries exLedger with
-    | .ok es => parseEntries (formatEntries widthCjk es) == .ok (es.map canonEntry) && es.all (fun e => wfEntry (canonEntry e))
+    | .ok es =>
+      (match parseEntries (formatEntries widthCjk es) with
+        | .ok es' => es' == es.map canonEntry
+        | _ => false) && es.all (fun e => wfEntry (canonEntry e))
     | _ => false) = true := by decide +kernel
 
 end Okane.C05
